@@ -357,7 +357,7 @@ def wl_cuckoo(ctx, rng, case):
     import probables as P
     from probables.exceptions import CuckooFilterFullError
 
-    cfg = ck.gen_cfg(rng, small=rng.random() < 0.6)
+    cfg = ck.gen_cfg(rng, small=rng.random() < 0.6, allow_rate=False)
     by_error_rate = rng.random() < 0.3
     keys = ck.gen_keys(rng, cfg, rng.randint(3, 16))
     if rng.random() < 0.35 and cfg.finger_size == 1 and not by_error_rate:
